@@ -9,7 +9,19 @@ def gen_cases(prop, tier, seed, n, profiles=None, frameworks=None, key_hostile=F
         rng = rng_for(prop, seed, i)
         jc = gen.json_case(rng, profile=rng.choice(profiles) if profiles else None)
         opts = gen.options(rng, jc["samples"], frameworks=frameworks)
-        cases.append({"i": i, "profile": jc["profile"], "models": [["Root", jc["samples"]]], "opts": opts})
+        models = [["Root", jc["samples"]]]
+        if rng.random() < 0.15:
+            # a second model name, as the CLI allows (-m A ... -m B ...); sometimes drawn from the same schema, so that
+            # models of the two roots are similar and get merged across roots
+            if rng.random() < 0.5:
+                sch = gen.Schema(rng, jc["profile"])
+                second = sch.samples()
+            else:
+                second = [dict(s) for s in jc["samples"][: rng.randint(1, len(jc["samples"]))]]
+                if rng.random() < 0.5:
+                    second[0]["extra_key"] = 1
+            models.append(["Second", second])
+        cases.append({"i": i, "profile": jc["profile"], "models": models, "opts": opts})
     return cases
 
 
